@@ -35,6 +35,7 @@ def run(ctx):
     ctx.ob("I-INDEX", "no other image construction reachable from the enum parser", not others, "%s" % others)
     eadv = progress.rule_L_PROGRESS(ctx, reach, 10)
     progress.rule_L_RECURSION_enum(ctx, reach, eadv)
+    progress.rule_L_ONCE_enum(ctx, reach, eadv)
     import maps
     maps.rule_U_CHARS(ctx, modules=("impl_enum::parser",))
     T = tables.Tables(ctx)
